@@ -243,6 +243,14 @@ def c19(ctx):
     c = ctx.cfg
     sparse, dense, trunc = c.get("sparse", 1), c.get("dense", 0.001), c.get("trunc", -1)
     nops = ctx.nops
+    # the normalisation constant is computable from the instance alone: the sum of all durations
+    from jobshoplab.types.instance_config_types import DeterministicTimeConfig as _Det
+    ops = [o for j in ctx.instance.instance.specification for o in j.operations]
+    if ops and all(isinstance(o.duration, _Det) for o in ops):
+        total = sum(o.duration.time for o in ops)
+        if env.max_allowed_time != total:
+            yield F("max-allowed-time-not-sum-of-durations", f"T_max {env.max_allowed_time} but the durations sum to {total}", None)
+            return
     for si, rec in enumerate(ctx.records):
         if rec.kind == "act" and rec.action in (0, 1) and isinstance(rec.error, ZeroDivisionError):
             yield F("reward-zero-division", f"reward computation raised ZeroDivisionError (T_max={env.max_allowed_time}, LB={env.lower_bound})", si)
